@@ -163,6 +163,8 @@ let run_gs (toks : string list) : string =
   List.iter (fun s -> Buffer.add_string b (" " ^ hex_of_bytes s)) (bw_elements_to_bytes rs);
   Buffer.add_string b " | UB";
   List.iter (fun s -> Buffer.add_string b (" " ^ hex_of_bytes s)) (bw_batch_to_bytes_uncompressed rs);
+  Buffer.add_string b " | US";
+  List.iter (fun p -> Buffer.add_string b (" " ^ hex_of_bytes (bw_bytes_uncompressed p))) rs;
   Buffer.add_string b " | UT";   (* uncompressed (trusted) round trip, re-encoded compressed *)
   List.iter (fun p ->
     match bw_set_bytes_uncompressed true (bw_bytes_uncompressed p) true with
@@ -352,6 +354,65 @@ let handle toks =
             | Some (t', ok) ->
                 let (_, ch) = c_challenge t' [ZZ.of_int 110] in
                 (if ok then "true " else "false ") ^ frhex ch))
+  | ["msmx"; _; _; _; ps; ss] ->
+      let pts = if ps = "-" then [] else List.map point_of_tok (split_on ',' ps) in
+      let ss = frs_of ss in
+      if List.length pts <> List.length ss then "ERR"
+      else hex_of_bytes (bw_bytes (c_msm pts ss))
+  | ["msmin"; _; _; ps; ss] ->
+      let pts = if ps = "-" then [] else List.map point_of_tok (split_on ',' ps) in
+      hex_of_bytes (bw_bytes (c_msm pts (frs_of ss)))
+  | ["msminmodel"; c; split; ps; ss] ->
+      let pts = if ps = "-" then [] else List.map point_of_tok (split_on ',' ps) in
+      let ss = frs_of ss in
+      let a = c_msm_inner (ZZ.of_int (int_of_string c)) pts ss (split = "1") in
+      let b = c_msm pts ss in
+      (if bw_equal a b || (bw_bytes a = bw_bytes b) then "same " else "DIFFERENT ") ^ hex_of_bytes (bw_bytes a)
+  | ["part"; c; _; _; ss] ->
+      let (packed, small) = partition_scalars (ZZ.of_int (int_of_string c)) (List.map (fun x -> (x : ZZ.t)) (frs_of ss)) in
+      let m64 = ZZ.sub (ZZ.shift_left ZZ.one 64) ZZ.one in
+      let limbs v = String.concat "." (List.map (fun i -> zhex (ZZ.logand (ZZ.shift_right v (64 * i)) m64)) [0; 1; 2; 3]) in
+      zdec small ^ String.concat "" (List.map (fun v -> " " ^ limbs v) packed)
+  | "fr" :: op :: args ->
+      let lim s = match split_on '.' s with
+        | [a; b; c; d] -> (((z_of_hex a, z_of_hex b), z_of_hex c), z_of_hex d)
+        | _ -> failwith "bad limbs" in
+      let show (((a, b), c), d) = zhex a ^ "." ^ zhex b ^ "." ^ zhex c ^ "." ^ zhex d in
+      let v s = lval (lim s) in
+      let out x = show (limbs_of x) in
+      (match op, args with
+       | ("add" | "addA" | "addB"), [a; b] -> out (i_add (v a) (v b))
+       | ("sub" | "subA" | "subB"), [a; b] -> out (i_sub (v a) (v b))
+       | ("mul" | "mulA" | "mulB"), [a; b] -> out (i_mul (v a) (v b))
+       | "addAA", [a; _] -> out (i_add (v a) (v a))
+       | "subAA", [a; _] -> out (i_sub (v a) (v a))
+       | "mulAA", [a; _] -> out (i_mul (v a) (v a))
+       | ("div" | "divA" | "divB"), [a; b] -> out (i_div (v a) (v b))
+       | ("neg" | "negA"), [a] -> out (i_neg (v a))
+       | ("double" | "doubleA"), [a] -> out (i_double (v a))
+       | ("square" | "squareA"), [a] -> out (i_mul (v a) (v a))
+       | ("inverse" | "inverseA"), [a] -> out (i_inverse (v a))
+       | "exp", [a; e] -> out (i_exp (v a) (z_of_hex e))
+       | "legendre", [a] -> zdec (i_legendre (v a))
+       | "sqrt", [a] -> (match i_sqrt (v a) with None -> "NIL" | Some y -> out y)
+       | "mulby", [c; a] -> out (i_mul_by (z_of_dec c) (v a))
+       | "butterfly", [a; b] -> out (i_add (v a) (v b)) ^ " " ^ out (i_sub (v a) (v b))
+       | "cmp", [a; b] -> zdec (i_cmp (v a) (v b))
+       | "lex", [a] -> if i_lex_largest (v a) then "true" else "false"
+       | "frommont", [a] -> out (i_from_mont (v a))
+       | "tomont", [a] -> out (i_to_mont (v a))
+       | "batchinv", [l] -> String.concat "," (List.map out (c_batch_invert_mont (List.map v (split_on ',' l))))
+       | "batchinv", [] -> ""
+       (* portable functions, limb-level model *)
+       | "gmul", [a; b] -> show (mul_generic (lim a) (lim b))
+       | "gadd", [a; b] -> show (add_generic (lim a) (lim b))
+       | "gsub", [a; b] -> show (sub_generic (lim a) (lim b))
+       | "gneg", [a] -> show (neg_generic (lim a))
+       | "gdouble", [a] -> show (double_generic (lim a))
+       | "gfrommont", [a] -> show (from_mont_generic (lim a))
+       | "greduce", [a] -> show (reduce_generic (lim a))
+       | "gbutterfly", [a; b] -> let (x, y) = butterfly_generic (lim a) (lim b) in show x ^ " " ^ show y
+       | _ -> failwith ("bad fr op " ^ op))
   | ["dod"; k; ps] ->
       let f = poly_of_spec 256 ps in
       String.concat "," (List.map frhex (c_divide_on_domain (nat_of_int (int_of_string k)) f))
